@@ -21,9 +21,19 @@ Theorem C17_detect_translation : forall f p, detect_params f = Some p ->
 Proof. exact detect_translation_proof. Qed.
 Print Assumptions C17_detect_translation.
 
-Theorem C17_verify_translation : forall f,
-  vp_report (verify_params f) = (if vf_all f then RAll else if vf_fields f then RFields else RAll) /\
-  vp_ascii (verify_params f) = vf_ascii f /\ vp_tc (verify_params f) = vf_tc f /\
-  vp_eps (verify_params f) = vf_eps f.
+Theorem C17_verify_translation : forall f p, verify_params f = Some p ->
+  vp_report p = (if vf_all f then RAll else if vf_fields f then RFields else RAll) /\
+  vp_ascii p = vf_ascii f /\ vp_tc p = vf_tc f /\ vp_eps p = vf_eps f.
 Proof. exact verify_translation_proof. Qed.
 Print Assumptions C17_verify_translation.
+
+(* --all with --fields, and --rex with --norex, contradict each other: exit status 1, and only then *)
+Theorem C17_verify_contradiction : forall f, verify_params f = None <-> (vf_all f = true /\ vf_fields f = true).
+Proof. exact verify_contradiction_proof. Qed.
+Print Assumptions C17_verify_contradiction.
+
+Theorem C17_discover_contradiction : forall rex norex,
+  (discover_params rex norex = None <-> (rex = true /\ norex = true)) /\
+  (forall b, discover_params rex norex = Some b -> b = rex).
+Proof. exact discover_contradiction_proof. Qed.
+Print Assumptions C17_discover_contradiction.
